@@ -86,6 +86,11 @@ func (e *enumCtx) roundTrip(p *refcodec.Packet, idAuto bool, counter uint64) {
 	e.c.Rep.Evaluations++
 	shape := shapeOf(p)
 	desc := map[string]interface{}{"packet": p.String(), "auto_id": idAuto, "counter": counter}
+	defer func() {
+		if r := recover(); r != nil {
+			e.fail(p.Type, shape, fmt.Sprintf("the library panics on a legal message: %v", r), desc)
+		}
+	}()
 	if idAuto {
 		message.VerifSetPacketIDCounter(counter)
 	}
